@@ -69,6 +69,71 @@ def hier_oracle(ctx, case, steps, ctor_err):
                                     f'{fine.number_of_edges()} bonds, the molecule has {ref.number_of_nodes()} / {ref.number_of_edges()}')
 
 
+def nonlegacy_case(rng):
+    """a chain of two-atom units resolved under the label-insensitive convention (legacy=False): neighbouring units
+    are joined alternately by sharing an atom ('!'), by a '$' pair or by a '>' '<' pair — never the same kind twice
+    in a row, so that with labels ignored every pair is still forced; the labels themselves are arbitrary"""
+    k = rng.randint(2, 4)
+    kinds = []
+    for _ in range(k - 1):
+        kinds.append(rng.choice([x for x in ('!', '$', 'arrow') if not kinds or x != kinds[-1]]))
+    if '!' not in kinds:
+        kinds[rng.randrange(len(kinds))] = '!'
+        for i in range(1, len(kinds)):
+            if kinds[i] == kinds[i - 1]:
+                kinds[i] = rng.choice([x for x in ('$', 'arrow') if x != kinds[i - 1] and (i + 1 >= len(kinds) or x != kinds[i + 1])] or ['$'])
+    lab = lambda: rng.choice(['', 'a', 'b', 'x1'])
+    ref = nx.Graph()
+    frags, last_atom = [], None
+    for i in range(k):
+        first_el = 'C' if (i > 0 and kinds[i - 1] == '!') else rng.choice(['C', 'C', 'N'])
+        last_el = 'C' if (i < k - 1 and kinds[i] == '!') else rng.choice(['C', 'C', 'O'] if i == k - 1 else ['C', 'C', 'N'])
+        left = '' if i == 0 else {'!': '[!%s]' % lab(), '$': '[$%s]' % lab(), 'arrow': '[<%s]' % lab()}[kinds[i - 1]]
+        right = '' if i == k - 1 else {'!': '[!%s]' % lab(), '$': '[$%s]' % lab(), 'arrow': '[>%s]' % lab()}[kinds[i]]
+        # the unit's first atom carries the link to the left, its last atom the link to the right
+        # (written in either direction: which descriptor the matcher meets first must not matter)
+        frags.append('#U%d=%s%s%s%s' % ((i, first_el, left, last_el, right) if rng.random() < 0.5 else (i, last_el, right, first_el, left)))
+        if i > 0 and kinds[i - 1] == '!':
+            a = last_atom                      # shared with the previous unit's last atom
+        else:
+            a = len(ref)
+            ref.add_node(a, element=first_el)
+            if i > 0:
+                ref.add_edge(last_atom, a)
+        b = len(ref)
+        ref.add_node(b, element=last_el)
+        ref.add_edge(a, b)
+        last_atom = b
+    val = {'C': 4, 'N': 3, 'O': 2}
+    for n in list(ref.nodes):
+        for _ in range(val[ref.nodes[n]['element']] - ref.degree(n)):
+            h = len(ref)
+            ref.add_node(h, element='H')
+            ref.add_edge(n, h)
+    s = '{' + ''.join('[#U%d]' % i for i in range(k)) + '}.{' + ','.join(rng.sample(frags, len(frags))) + '}'
+    return {'kind': 'nonlegacy-share', 's': s, 'all_atom': True, 'legacy': False, 'nshared': kinds.count('!'),
+            'ref': {'n': [[n, d['element']] for n, d in ref.nodes(data=True)], 'e': [list(e) for e in ref.edges]}}
+
+
+def nonlegacy_oracle(ctx, case, steps, ctor_err):
+    if steps is None:
+        ctx.fail(suites.slim(case), f'description rejected while reading: {ctor_err[1]}')
+        return
+    st = steps[-1]
+    if st['result'] != 'ok':
+        ctx.fail(suites.slim(case), f'description rejected under the label-insensitive convention: {st["result"]}')
+        return
+    ref = nx.Graph()
+    ref.add_nodes_from((n, {'element': el}) for n, el in case['ref']['n'])
+    ref.add_edges_from(case['ref']['e'])
+    fine = st['fine_graph']
+    if fine.number_of_nodes() != ref.number_of_nodes() or \
+            not nx.is_isomorphic(fine, ref, node_match=lambda a, b: a.get('element') == b.get('element')):
+        ctx.fail(suites.slim(case), f'label-insensitive convention: the description resolves to {fine.number_of_nodes()} atoms / '
+                                    f'{fine.number_of_edges()} bonds, the molecule has {ref.number_of_nodes()} / {ref.number_of_edges()} '
+                                    f'({case["nshared"]} shared atoms)')
+
+
 def classify(case):
     """Q2: a shared pair whose atom is aromatic (the hydrogen count of the kept copy ignores the bonds it inherits)"""
     if any(k.startswith('aromatic') for k in case.get('shared_kinds', [])):
@@ -77,6 +142,10 @@ def classify(case):
 
 
 def run(ctx):
+    rng_n = ctx.rng('nonlegacy')
+    for _ in range(ctx.budget(60, 1000)):
+        suites.run_resolve_case(ctx, 'nonlegacy-share', nonlegacy_case(rng_n), oracle=nonlegacy_oracle)
+    ctx.feature('nonlegacy-share')
     rng = ctx.rng('share')
     for i in range(ctx.budget(400, 8000)):
         if ctx.out_of_time():
